@@ -38,7 +38,7 @@ REQUIRED = {
 
 
 def budget(tier):
-    return 240 if tier == "quick" else 6000
+    return 240 if tier == "quick" else 72000
 
 
 def gen_case(rng, tier, idx):
